@@ -23,7 +23,8 @@ type c15Node struct {
 	desc     string
 	parent   int // index into the node list; -1 = top (placed under the instance root)
 	deleted  bool
-	mirrorOf int // >=0: this entry is a second placement of that node (no own points)
+	moved    bool // first placed under an unrelated group and deleted there, then placed where it belongs (its oldest edge is a tombstoned one)
+	mirrorOf int  // >=0: this entry is a second placement of that node (no own points)
 	points   data.Points
 	edgePts  data.Points
 }
@@ -38,6 +39,7 @@ func c15Shapes() []c15Shape {
 		return c15Node{id: fmt.Sprintf("id%d", i), typ: typ, desc: fmt.Sprintf("n%d", i), parent: parent, mirrorOf: -1}
 	}
 	del := func(c c15Node) c15Node { c.deleted = true; return c }
+	mov := func(c c15Node) c15Node { c.moved = true; return c }
 	mir := func(of, parent int) c15Node { return c15Node{parent: parent, mirrorOf: of} }
 	return []c15Shape{
 		{"single", []c15Node{n(0, "group", -1)}},
@@ -48,6 +50,8 @@ func c15Shapes() []c15Shape {
 		{"deleted-child", []c15Node{n(0, "group", -1), n(1, "variable", 0), del(n(2, "variable", 0)), n(3, "variable", 1)}},
 		{"deleted-subtree", []c15Node{n(0, "group", -1), del(n(1, "group", 0)), n(2, "variable", 1), n(3, "variable", 0)}},
 		{"mirror", []c15Node{n(0, "group", -1), n(1, "group", 0), n(2, "variable", 0), mir(2, 1)}},
+		{"moved-top", []c15Node{mov(n(0, "group", -1)), n(1, "variable", 0)}},
+		{"moved-child", []c15Node{n(0, "group", -1), mov(n(1, "group", 0)), n(2, "variable", 1)}},
 	}
 }
 
@@ -350,6 +354,18 @@ func c15Run(x *mc.X, sp c15Special, shape c15Shape, pos, target int, preserve bo
 					pts = append(pts, p)
 				}
 			}
+			if n.moved {
+				// an older placement under an unrelated group, deleted again (what MoveNode leaves behind)
+				if err := client.SendNode(a.Nc, data.NodeEdge{ID: "oldhome", Type: "group", Parent: a.RootID, Points: data.Points{{Type: data.PointTypeDescription, Text: "old home", Time: tick()}}}, ""); err != nil {
+					return mc.Outcome{Violation: "HARNESS: build: " + err.Error(), Key: "harness"}
+				}
+				if err := client.SendEdgePoints(a.Nc, n.id, "oldhome", data.Points{{Type: data.PointTypeTombstone, Time: tick()}, {Type: data.PointTypeNodeType, Text: n.typ}}, true); err != nil {
+					return mc.Outcome{Violation: "HARNESS: build (old placement): " + err.Error(), Key: "harness"}
+				}
+				if err := client.SendEdgePoints(a.Nc, n.id, "oldhome", data.Points{{Type: data.PointTypeTombstone, Value: 1, Time: tick()}}, true); err != nil {
+					return mc.Outcome{Violation: "HARNESS: build (old placement): " + err.Error(), Key: "harness"}
+				}
+			}
 			if err := client.SendNode(a.Nc, data.NodeEdge{ID: n.id, Type: n.typ, Parent: parent, Points: pts, EdgePoints: epts}, ""); err != nil {
 				return mc.Outcome{Violation: "HARNESS: build: " + err.Error(), Key: "harness"}
 			}
@@ -450,7 +466,7 @@ func checkC15(r *mc.Report, thorough bool) {
 	}
 	specials := c15Specials(thorough)
 	r.Explore(mc.Config{Name: name, SplitDepth: 2, StopAfterViolations: 60,
-		Rule: fmt.Sprintf("%d special point contents (YAML-significant / Unicode / control strings as text and as key, values incl. exponent forms and infinities, keys \"\"/\"0\"/array/map, tombstoned points, edge points, node-id references to sibling / top / outside / empty) x 8 tree shapes (depth <=3, fan-out <=2, deleted child, deleted subtree, mirrored child) x every node position x import target {same parent, other parent, other instance} x preserveIDs {no, yes}; imported subtree compared with the exported one under one consistent id bijection", len(specials))},
+		Rule: fmt.Sprintf("%d special point contents (YAML-significant / Unicode / control strings as text and as key, values incl. exponent forms and infinities, keys \"\"/\"0\"/array/map, tombstoned points, edge points, node-id references to sibling / top / outside / empty) x 10 tree shapes (depth <=3, fan-out <=2, deleted child, deleted subtree, mirrored child, moved top node, moved child: oldest edge tombstoned) x every node position x import target {same parent, other parent, other instance} x preserveIDs {no, yes}; imported subtree compared with the exported one under one consistent id bijection", len(specials))},
 		c15Body(thorough))
 	sh.CleanupTemplate()
 	r.Assume("compared per point: type, normalised key, value bit-wise, text, tombstone (time, origin and data are not part of the statement); tombstone=0 edge points and the nodeType point are implementation noise and ignored")
